@@ -23,6 +23,21 @@ def firstDiff : List XRat → List XRat → Nat → Option Nat
   | x :: xs, y :: ys, i => if bitEq x y then firstDiff xs ys (i + 1) else some i
   | _, _, i => some i
 
+/-- both finite and within 2^-48 relative to the larger magnitude (a few units in the last place) -/
+def lastBitsB : XRat → XRat → Bool
+  | .fin p, .fin q =>
+      let d := if p < q then q - p else p - q
+      let ap := if p < 0 then -p else p
+      let aq := if q < 0 then -q else q
+      decide (d * 281474976710656 ≤ (if ap < aq then aq else ap))
+  | x, y => bitEq x y
+
+/-- the two outputs have the same shape and differ only in last bits -/
+def lastBitsOnly : List XRat → List XRat → Bool
+  | [], [] => true
+  | x :: xs, y :: ys => lastBitsB x y && lastBitsOnly xs ys
+  | _, _ => false
+
 def sameB (a b : List XRat) : Bool := (firstDiff a b 0).isNone
 
 /-- shortest stream for which a coincidence is treated as "the same engine state" rather than chance -/
